@@ -122,12 +122,12 @@ CLAIMED["C15"] = ("4/C15", "timedelta <-> Duration over timedelta's whole range 
                   "modules: from_date / to_date / from_naive_datetime / to_naive_datetime glue over the whole ordinal range, year-1 boundary; "
                   "Offset <-> timedelta (float by design) and the model's agreement with CPython as labelled concrete premises.",
                   "aware datetimes / Instant.to_datetime_utc are not claimed; ISO date <-> ordinal agreement is C02")
-CLAIMED["C08"] = ("4/C08", "parse(s) for EVERY text of length <= 4 (5 in thorough) under 12 offset/time/date/duration/date-time patterns; texts with the "
+CLAIMED["C08"] = ("4/C08", "parse(s) for EVERY text (every Unicode character) up to the pattern's natural length + 1 (6..12 characters) under 12 offset/time/date/duration/date-time patterns; texts with the "
                   "pattern's separators and every numeric field rendered from a symbolic integer (valid and out-of-range values); the parse buckets "
                   "as units over every accumulated value (duration total, offset fields): a result object is always returned, successes carry valid "
                   "values, failures produce their error; create_with_invariant_culture for every pattern text of length <= 2 (3 in thorough) over "
                   "a 25-character pattern alphabet raises InvalidPatternError only.",
-                  "invariant culture only; parse-failure message builders are stubbed (type and flags kept); longer skeleton texts only in thorough")
+                  "invariant culture only; parse-failure message builders are stubbed (type and flags kept); ISO date-time texts beyond 10 characters only as numeric skeletons")
 CLAIMED["C07"] = ("4/C07", "format -> parse with symbolic formatting (the produced text stays symbolic): every Offset under g, G, l and two custom "
                   "patterns (partitioned by sign and zero minute/second parts); every value of every single-field time and date pattern "
                   "(H HH m mm s ss fff..., M MM d dd uuuu yyyy); two-field time patterns incl. 12-hour + am/pm; built-in ISO time patterns "
